@@ -211,8 +211,8 @@ def random_int_group(rng):
             flags += rng.choice(flags)          # a repeated flag
         if in_grammar_int(flags, conv):
             break
-    width = rng.choice(WIDTHS + [rng.randrange(1, 40), ("*", rng.randrange(-30, 30))])
-    prec = rng.choice(PRECS + [rng.randrange(0, 40), ("*", rng.randrange(-5, 30))])
+    width = rng.choice(WIDTHS + [rng.randrange(1, 40), ("*", rng.randrange(-30, 30)), rng.choice([100, 123, 255, 1001])])
+    prec = rng.choice(PRECS + [rng.randrange(0, 40), ("*", rng.randrange(-5, 30)), rng.choice([100, 109, 300, 1010])])
     mod = rng.choice(MODS)
     vals = int_values(conv, mod)
     if rng.random() < 0.3:
@@ -458,6 +458,7 @@ def corpus():
     one("d41-positional-reorder", POSITIONAL[6])
     one("d33-positional-mixed-types", POSITIONAL[8])
     one("intmin-star-width-char", ["fmt " + hx(b"%*c"), "arg i %d" % INT_MIN, "arg i 65", "tag malformed"])
+    one("three-digit-width-precision", join_groups([int_group("", 123, None, "", "d", v(-7)), int_group("-", 1005, 120, "l", "x", ("l", 48879, 48879))]))
     one("tests-cpp", join_groups([int_group("-", 3, 2, "", "d", v(1)), int_group("", 3, 2, "", "u", v(12)), int_group("#", None, None, "", "o", v(0)),
                                   int_group("#", None, None, "", "X", v(12))]))
     return cs
